@@ -105,6 +105,14 @@ def load_findings():
 def run_property(mod, tier, seed, jobs=None):
     t0 = time.time()
     prop = mod.PROPERTY
+    if hasattr(mod, "run_main"):
+        # the module drives its own (level-synchronous, parallel) exploration
+        try:
+            total = mod.run_main(tier, seed)
+        except BaseException:
+            sys.stderr.write("HARNESS-ERROR %s\n" % traceback.format_exc())
+            return 2
+        return finish(mod, total, tier, seed, time.time() - t0, nshards=1)
     shards = list(mod.shards(tier))
     # VERIF_SEED permutes the order in which shards are explored (never whether)
     import random
@@ -180,6 +188,10 @@ def finish(mod, total, tier, seed, wall, nshards):
             print("VIOLATION property=%s replay=%s" % (prop, path))
             print("  fingerprint: %s" % v["fingerprint"])
             print("  %s" % v["message"].replace("\n", "\n  "))
+    if total.notes.get("states_are_distinct"):
+        # shards started from different prefixes can reach the same canonical state:
+        # report the number of distinct canonical states (plus the initial one)
+        total.states = len(total.distinct) + 1
     cov = {
         "states": total.states,
         "transitions": total.transitions,
